@@ -198,6 +198,37 @@ def run_case(ctx, chi, kinds, grids, obs, n_mech, psi, sig, seed, tag='gen'):
         del held2
     except Exception as e:  # noqa
         ctx.spec('C01.pointwise_result_stable', False, inp, {'raised': repr(e)[:200]})
+    # whole numbers handed over as integers (parameters; and times / measurements at construction) are the same
+    # numbers; the caller's arrays are left alone
+    if ctx.cases % 3 == 1:
+        before = params.copy()
+        with np.errstate(all='ignore'):
+            ll(params)
+            ll.compute_pointwise_ll(params)
+            ll.evaluateS1(params)
+        ctx.spec('C01.arguments_unchanged', np.array_equal(params, before, equal_nan=True), inp)
+        whole = np.where(params < 1.0, 1.0, 2.0)
+
+        def f(x_):
+            return (float(ll(x_)), np.asarray(ll.compute_pointwise_ll(x_), float))
+        ctx.number_types('C01.whole_number_parameters', f, whole, inp)
+        try:
+            gi = [np.arange(len(g_)) + 1 for g_ in grids]                 # integer time grids 1..n
+            oi = [np.round(o_) + 1 for o_ in obs]
+            ems_f = [c04.classes(chi)[k][0]() for k in kinds]
+            ems_i = [c04.classes(chi)[k][0]() for k in kinds]
+            lf = chi.LogLikelihood(toy.ToyModel(len(kinds), n_mech, seed), ems_f,
+                                   [list(map(float, o_)) for o_ in oi], [list(map(float, g_)) for g_ in gi])
+            li = chi.LogLikelihood(toy.ToyModel(len(kinds), n_mech, seed), ems_i,
+                                   [np.asarray(o_, dtype=np.int64) for o_ in oi],
+                                   [np.asarray(g_, dtype=np.int64) for g_ in gi])
+            with np.errstate(all='ignore'):
+                a, b = float(lf(params)), float(li(params))
+                pa, pb = lf.compute_pointwise_ll(params), li.compute_pointwise_ll(params)
+            ctx.spec('C01.whole_number_data', core.close(a, b) and core.close(np.asarray(pa, float), np.asarray(pb, float)),
+                     dict(inp, times=gi, obs=oi), {'float_data': a, 'integer_data': b})
+        except Exception as e:  # noqa
+            ctx.spec('C01.whole_number_data', False, dict(inp), {'raised': repr(e)[:200]})
     # posterior = prior + likelihood
     if ctx.cases % 5 == 0:
         prior = pints.ComposedLogPrior(*[pints.GaussianLogPrior(1.0, 2.0) for _ in params])
